@@ -75,6 +75,8 @@ def run(rep, tier):
     rep.rule("T10 partition", "with blank filling on, the prepared interval tiers partition [xmin, xmax] (abstract interpretation, shared with C04)")
     rep.not_decided.append("acceptance of the files by Praat itself / an independent grammar-based reader (only the writer's structure is decided)")
     rep.not_decided.append("effect of sub-threshold absorption on the partition beyond what C04 decides")
+    rep.rule("W-doc", "both text emitters interpreted on generic textgrids (symbolic times, labels and names): an independent reader written from Praat's text-file specification (free-standing numbers, quoted strings with doubled quotes, flags; all else comment) recovers every name, class, span, declared size, time and label in order")
+    R.rule_written_document(rep, tier)
     R.rule_escape_emit(rep)
     R.rule_sizes(rep)
     R.rule_short_order(rep)
